@@ -121,13 +121,16 @@ var readerMethods = []struct {
 	{"ReadFloat64", func(r thrift.Reader) error { _, e := r.ReadFloat64(); return e }},
 	{"ReadBytes", func(r thrift.Reader) error { _, e := r.ReadBytes(); return e }},
 	{"ReadString", func(r thrift.Reader) error { _, e := r.ReadString(); return e }},
-	{"ReadLength", func(r thrift.Reader) error { _, e := r.ReadLength(); return e }},
+	{"ReadLength", func(r thrift.Reader) error { n, e := r.ReadLength(); lastCount = int64(n); return e }},
 	{"ReadMessage", func(r thrift.Reader) error { _, e := r.ReadMessage(); return e }},
 	{"ReadField", func(r thrift.Reader) error { _, e := r.ReadField(); return e }},
-	{"ReadList", func(r thrift.Reader) error { _, e := r.ReadList(); return e }},
-	{"ReadSet", func(r thrift.Reader) error { _, e := r.ReadSet(); return e }},
-	{"ReadMap", func(r thrift.Reader) error { _, e := r.ReadMap(); return e }},
+	{"ReadList", func(r thrift.Reader) error { l, e := r.ReadList(); lastCount = int64(l.Size); return e }},
+	{"ReadSet", func(r thrift.Reader) error { l, e := r.ReadSet(); lastCount = int64(l.Size); return e }},
+	{"ReadMap", func(r thrift.Reader) error { l, e := r.ReadMap(); lastCount = int64(l.Size); return e }},
 }
+
+// lastCount is the length or element count returned by the last ReadLength / ReadList / ReadSet / ReadMap call.
+var lastCount int64
 
 var classBytes = []byte{0x00, 0x01, 0x02, 0x05, 0x08, 0x0b, 0x0c, 0x0f, 0x10, 0x15, 0x7f, 0x80, 0x82, 0xf0, 0xf5, 0xff}
 
@@ -139,12 +142,16 @@ func readerBytes(c *explore.Ctx) {
 	run := func(in []byte) {
 		n++
 		var err error
+		lastCount = 0
 		before := allocated()
 		pv, ps := explore.Catch(func() { err = m.call(impl(p).NewReader(bytes.NewReader(in))) })
 		used := allocated() - before
 		if pv != nil {
 			c.Fail("Reader:panic:"+m.name+":"+ps+":"+explore.PanicClass(pv), "%s on % x (%s) panicked: %v", m.name, in, p, pv)
 			return
+		}
+		if err == nil && lastCount < 0 {
+			c.Fail("Reader:negative-count-accepted:"+m.name+":"+proto3(p), "%s on % x (%s) returns the count %d without an error", m.name, in, p, lastCount)
 		}
 		for rep := 0; rep < 3 && used > budget(len(in)); rep++ { // lazily flushed allocation statistics: only a reproducible excess counts
 			b0 := allocated()
